@@ -24,7 +24,7 @@ type Opts struct {
 var AllFeatures = []string{
 	"async", "err", "multi", "bind", "struct", "value", "sets", "lit", "ext", "ctxparam",
 	"composite", "basic", "args", "unneeded", "multi-inj", "multi-file", "dupparam",
-	"generic", "variadic", "variadic-functype", "want-unsupplied", "kalias", "extalias", "value-and-pointer", "rewrap", "struct-both-forms", "alias-basic", "ctx-provider", "implements-error", "adv-pkg-shadowed-by-later-decl", "value-literal", "multi-var-sets", "ext-method-value",
+	"generic", "variadic", "variadic-functype", "want-unsupplied", "kalias", "extalias", "value-and-pointer", "rewrap", "struct-both-forms", "alias-basic", "ctx-provider", "implements-error", "adv-pkg-shadowed-by-later-decl", "value-literal", "multi-var-sets", "ext-method-value", "err-alias",
 	"async-struct", "ptrrecv", "aiface", "embedded",
 }
 
@@ -64,6 +64,7 @@ type gen struct {
 	bundle   map[TypeID][]TypeID // field type -> sibling field types and the struct type of its expansion
 	pending  map[TypeID]bool
 	roots    int // the first `roots` units take no provided inputs (fork), the last unit joins
+	errAliasDeclared bool
 	wide     bool // fan shape: every inner unit takes at most one of the first supplied types, the last unit joins all
 }
 
@@ -587,6 +588,11 @@ func Gen(rt *rapid.T, o Opts) *Case {
 				g.c.AddFeature("adv-pkg-level-names")
 			}
 		}
+		if len(g.c.PkgNames) > 0 && rapid.Bool().Draw(rt, "names-in-foreign-generated-file") {
+			// the file declaring them was written by some other generator
+			g.c.NamesGenerated = true
+			g.c.AddFeature("adv-names-in-foreign-generated-file")
+		}
 	}
 	return g.c
 }
@@ -794,6 +800,11 @@ func (g *gen) genUnit(i int) {
 	}
 	if g.want("err", "err", errPct) {
 		p.Err = true
+		if !extForm && (g.used["Failure"] == g.errAliasDeclared) && g.want("err-alias", "erralias", 18) {
+			// the error result is spelled through an alias of error
+			p.ErrAlias = true
+			g.used["Failure"], g.errAliasDeclared = true, true
+		}
 	}
 	// name after the first result
 	base := "Val"
